@@ -38,6 +38,9 @@ func (s *SyslogIngester) Process(ctx context.Context, line string) error {
 // ParseSyslogMessage expects a message in the form of "<PID> <Message>".
 func (s *SyslogIngester) ParseSyslogMessage(entry string) sshd.SshdLogEntry {
 	minimumEntrySplitLength := 2
+	// The named pipe ingester hands over the record together with its
+	// delimiter. The delimiter frames the record; it is not part of it.
+	entry = strings.TrimSuffix(entry, "\n")
 	entrySplit := strings.Split(entry, " ")
 
 	if len(entrySplit) < minimumEntrySplitLength {
